@@ -22,14 +22,18 @@ def sh(cmd, cwd, env=None, timeout=1800):
 
 
 def main():
-    for wt in sys.argv[1:]:
+    tag = ''
+    args = sys.argv[1:]
+    if args and args[0].startswith('--tag='):
+        tag = args.pop(0).split('=', 1)[1]
+    for wt in args:
         for sub in sorted(os.listdir(wt)):
             md = os.path.join(wt, sub)
             if not (sub.startswith('mutant') and os.path.isdir(md)):
                 continue
             meta = json.load(open(os.path.join(md, 'meta.json')))
             pid = meta['property']
-            name = '%s-%s' % (pid, sub.replace('mutant', 'm'))
+            name = '%s-%s%s' % (pid, tag, sub.replace('mutant', 'm'))
             dest = os.path.join(VERIF, 'seeded', name)
             scratch = '/dev/shm/seed_%s' % name
             shutil.rmtree(scratch, ignore_errors=True)
